@@ -195,6 +195,9 @@ def make_offenders(toks, tree, loaded, rng):
     return out
 
 
+DEFERRED = {}
+
+
 class _Sink:
     def write(self, s):
         return len(s)
@@ -227,6 +230,19 @@ def check_offender(V, toks, cls, gap, x, res: Result, crlf):
             continue
         reports.append((o.error, o.error_pos))
         res.case(data)
+        # deferred read of the previous rejecting Parser object, now that another one ran
+        prev = DEFERRED.get("p")
+        if prev is not None:
+            pp, pdata, psnap = prev
+            now = lab.snapshot(pp, with_tree=False)
+            res.monitor("report-stable-while-other-parsers-run", now != psnap)
+            if now != psnap:
+                res.violation({"oracle": "report-changed-after-another-parser-ran",
+                               "class": cls},
+                              {"input": pdata, "next_input": data,
+                               "right_after_parse": repr(psnap[1:]),
+                               "after_next_parse": repr(now[1:])})
+        DEFERRED["p"] = (o.parser, data, lab.snapshot(o.parser, with_tree=False))
         if first is None:
             first = (data, o)
         if sfx is None or sfx == SUFFIXES[3] or sfx == SUFFIXES[4]:
